@@ -12,12 +12,30 @@ import (
 func TestC18(t *testing.T) {
 	runProp(t, "C18", func(e *env) {
 		r := e.r
-		e.rapidStage("rounds", "rapid", e.cfg.N(1200, 60000), func(rt *rapid.T) {
+		e.rapidStage("rounds", "rapid", e.cfg.N(800, 40000), func(rt *rapid.T) {
 			nd := rapid.IntRange(4, 24).Draw(rt, "ndocs")
 			c := &core.Case{Prop: "C18", Kind: "workload"}
+			deep := map[int]bool{}
 			for i := 0; i < nd; i++ {
 				var b []byte
-				switch rapid.IntRange(0, 5).Draw(rt, "dockind") {
+				dk := rapid.IntRange(0, 6).Draw(rt, "dockind")
+				if i == 0 && rapid.IntRange(0, 5).Draw(rt, "deepround?") == 0 {
+					dk = 99 // one depth-limit input in about one round out of six
+				}
+				switch dk {
+				case 99:
+					// error exits matter for pooled / cached state: nesting at and beyond the limit
+					// (only the skip and traversal operations are run on these)
+					d := []int{9999, 10000, 10001, 10002, 12000}[rapid.IntRange(0, 4).Draw(rt, "depth")]
+					cl := 0
+					if rapid.Bool().Draw(rt, "closed") {
+						cl = d
+					}
+					b = gen.NestSpec{Depth: d, Pattern: gen.NestPatterns[rapid.IntRange(0, len(gen.NestPatterns)-1).Draw(rt, "pat")], Close: cl, Bottom: "1"}.Build()
+					deep[i] = true
+				case 6:
+					b = gen.NestSpec{Depth: rapid.IntRange(2, 40).Draw(rt, "depth"), Pattern: gen.NestPatterns[rapid.IntRange(0, len(gen.NestPatterns)-1).Draw(rt, "pat")],
+						Close: rapid.IntRange(0, 40).Draw(rt, "close"), Bottom: []string{"1", `"x"`, "", "]"}[rapid.IntRange(0, 3).Draw(rt, "bottom")]}.Build()
 				case 0:
 					b = gen.Str(rt, nil, 8)
 				case 1:
@@ -37,8 +55,25 @@ func TestC18(t *testing.T) {
 			stride := []int{1, 7, 11}[rapid.IntRange(0, 2).Draw(rt, "stride")]
 			nops := rapid.IntRange(40, 160).Draw(rt, "nops")
 			c.Ints = []int64{int64(ng), int64(procs), int64(stride)}
+			skipFamily := []int{0, 1, 2, 8, 9, 30, 31, 32, 33, 34}
+			deepOps := 0
+			if len(deep) > 0 && ng > 8 {
+				ng = 8
+				c.Ints[0] = 8
+			}
 			for i := 0; i < nops; i++ {
-				c.Ints = append(c.Ints, int64(rapid.IntRange(0, c18NumOps-1).Draw(rt, "fn")), int64(rapid.IntRange(0, nd-1).Draw(rt, "doc")))
+				fn := rapid.IntRange(0, c18NumOps-1).Draw(rt, "fn")
+				doc := rapid.IntRange(0, nd-1).Draw(rt, "doc")
+				if deep[doc] {
+					if deepOps >= 6 && nd > 1 {
+						doc = 1 + (doc+i)%(nd-1) // keep the round cheap: a handful of operations on the deep input
+					} else {
+						deepOps++
+						fn = skipFamily[fn%len(skipFamily)]
+						r.Label("op.on-depth-limit-input")
+					}
+				}
+				c.Ints = append(c.Ints, int64(fn), int64(doc))
 			}
 			r.Persist(c) // if the race detector kills or flags the process, this is the case
 			overlap, err := c18Round(c)
